@@ -20,4 +20,5 @@ def run(ctx, rep):
     rep.rule('E8', 'CobComp::euler_num / deg formulas')
     e9_relations.run(facts, rep, parts=('R1', 'R4'))
     e8_formulas.check_cob_formulas(facts, rep)
+    e8_formulas.check_elimination(facts, rep)
     e1_typestate.run_type(facts, rep, specs.COB, 'Cob', 15)
